@@ -260,6 +260,10 @@ def mon_c05(script, res):
 def mon_c06(script, res):
     if res['ended'] == 'crash':
         return 'exception escaped the main loop: %s' % (res.get('crash') or '')[-600:]
+    if res.get('misattributed'):
+        fn, w = res['misattributed'][0]
+        return ('output written by the child of p%d was logged in %s: the descriptors of that child are serviced by '
+                'another process\'s dispatchers' % (w, fn))
     if res.get('stale_pools'):
         return ('after the restart %d subscription(s) of event-listener pools of the previous daemon life are still in place: '
                 'those pools keep accepting every event' % res['stale_pools'])
@@ -790,6 +794,7 @@ def hostile_script(rng, logdir):
     import errno
     s = life_gen.random_script(rng, hostile=0.3)
     s['logdir'] = logdir
+    s['marks'] = True
     if rng.random() < 0.5:
         # the real activity log, small enough to roll over during the history (backups 0 included)
         s['mainlog'] = {'maxbytes': rng.choice([0, 200, 2000]), 'backups': rng.choice([0, 0, 1, 3])}
